@@ -28,6 +28,7 @@ type Ctrl struct {
 	PeriodMs   int                    `json:"period_ms"` // 0 = relisting disabled (10000h)
 	Filter     world.FilterSpec       `json:"filter"`
 	Unstructured bool                 `json:"unstructured,omitempty"` // the server speaks the dynamic client's representation
+	HeadFrame    string               `json:"head_frame,omitempty"`   // every watch stream opens with this non-object frame
 	Bystander  bool                   `json:"bystander,omitempty"` // a second, unrelated controller in the same process whose every Watch call hangs: controllers share nothing
 	BaseRV     int                    `json:"base_rv,omitempty"` // the server's version counter starts here (0 = 10)
 	Init       []world.Spec           `json:"init"`
@@ -156,6 +157,9 @@ func genC03(g GenCtx) interface{} {
 	sc.BaseRV = world.BaseRVs[rng.Intn(len(world.BaseRVs))]
 	sc.Bufsiz = pickInt(rng, 2, 3, 5, 10, 100)
 	sc.Unstructured = rng.Intn(8) == 0
+	if rng.Intn(6) == 0 {
+		sc.HeadFrame = []string{"bookmark", "status", "unknown-type"}[rng.Intn(3)]
+	}
 	sc.PeriodMs = pickInt(rng, 50, 200, 1000, 10000, 60000)
 	if g.Idx%8 == 1 {
 		sc.PeriodMs = pickInt(rng, 50, 200, 1000)
@@ -215,6 +219,9 @@ func genC04(g GenCtx) interface{} {
 	sc.Bufsiz = pickInt(rng, 2, 3, 4, 8, 16, 100)
 	sc.Bystander = rng.Intn(4) == 0
 	sc.Unstructured = rng.Intn(8) == 0
+	if rng.Intn(6) == 0 {
+		sc.HeadFrame = []string{"bookmark", "status", "unknown-type"}[rng.Intn(3)]
+	}
 	sc.PeriodMs = 0
 	if rng.Intn(3) == 0 {
 		sc.Filter = randFilter(rng)
@@ -271,6 +278,7 @@ func runCtrl(sci interface{}) {
 	srv := world.NewServer("pod")
 	srv.SetBaseRV(sc.BaseRV)
 	srv.Unstructured = sc.Unstructured
+	srv.HeadFrame = sc.HeadFrame
 	srv.F = world.NewFaults(sc.Faults)
 	srv.ListLatency = [2]time.Duration{ms(sc.ListLatMs[0]), ms(sc.ListLatMs[1])}
 	srv.VaryLatency = sc.VaryLat
